@@ -54,7 +54,10 @@ class MergeExtractor(BaseExtractor):
                                     if src_cqt := extract_column_qualifier(columns[1]):
                                         src_col = Column(src_cqt.column)
                                         src_col.parent = direct_source
-                                    if tgt_cqt := extract_column_qualifier(columns[0]):
+                                    if holder.write and (
+                                        tgt_cqt := extract_column_qualifier(columns[0])
+                                    ):
+                                        # no column lineage without an identified target table
                                         tgt_col = Column(tgt_cqt.column)
                                         tgt_col.parent = list(holder.write)[0]
                                     if src_col is not None and tgt_col is not None:
@@ -70,7 +73,9 @@ class MergeExtractor(BaseExtractor):
                             for column_reference in bracketed.get_children(
                                 "column_reference"
                             ):
-                                if cqt := extract_column_qualifier(column_reference):
+                                if holder.write and (
+                                    cqt := extract_column_qualifier(column_reference)
+                                ):
                                     tgt_col = Column(cqt.column)
                                     tgt_col.parent = list(holder.write)[0]
                                     insert_columns.append(tgt_col)
